@@ -120,7 +120,11 @@ func (e *Entry) onClose() error {
 		}
 	}
 	panics := w.ClosePanicRegs[e.Reg]
+	inClose := w.InClose
 	w.mu.Unlock()
+	if inClose != nil {
+		inClose(e)
+	}
 	if panics {
 		panic(fmt.Sprintf("injected-close-panic-r%d", e.Reg))
 	}
@@ -194,6 +198,9 @@ type World struct {
 	slotsUsed int // generic top-level kinds claim global slots (kinds_gen.go)
 	HoldArgs  bool
 	OnMade    func(obj any) // called for every instance a constructor makes
+	// InClose runs inside every Close() of a harness instance: a Close method that does something
+	// with the container (closes its own scope, the provider)
+	InClose func(e *Entry)
 }
 
 func NewWorld(cfg *Config) (*World, error) {
